@@ -29,8 +29,23 @@ thread_local! {
     static CUR_MODULE: Cell<u32> = const { Cell::new(u32::MAX) };
 }
 
+thread_local! {
+    /// a fine-grained (single-step) window is open on this thread (see sched.rs)
+    pub static FINE_ON: Cell<bool> = const { Cell::new(false) };
+}
+
 pub fn set_mode(m: u8) -> u8 {
-    MODE.try_with(|c| c.replace(m)).unwrap_or(0)
+    let old = MODE.try_with(|c| c.replace(m)).unwrap_or(0);
+    // harness code is not single-stepped: the trap handler turns the trap flag off when it
+    // sees harness mode, and it is turned on again here when code under test resumes
+    #[cfg(target_arch = "x86_64")]
+    if m == MODE_RUN && old != MODE_RUN && FINE_ON.try_with(|c| c.get()).unwrap_or(false) {
+        // SAFETY: sets the trap flag of this thread
+        unsafe {
+            core::arch::asm!("pushfq", "or qword ptr [rsp], 0x100", "popfq");
+        }
+    }
+    old
 }
 pub fn mode() -> u8 {
     MODE.try_with(|c| c.get()).unwrap_or(0)
